@@ -166,6 +166,12 @@ def r161(ctx, rep):
                     for x in ast.walk(b):
                         if isinstance(x, ast.Name) and x.id == var and isinstance(x.ctx, (ast.Store, ast.Del)) and \
                                 not (pump is not None and x is pump.targets[0]):
+                            # `row = Record(row, hdr)` / `row = tuple(row)`: the same row in a wrapper that compares equal
+                            # to it (what the views did before with `it = (Record(row, hdr) for row in it)`)
+                            asg = [a for a in ast.walk(b) if isinstance(a, ast.Assign) and any(t is x for t in a.targets)]
+                            if asg and isinstance(asg[0].value, ast.Call) and norm(asg[0].value.func) in ('Record', 'tuple') and \
+                                    asg[0].value.args and norm(asg[0].value.args[0]) == var:
+                                continue
                             ok = False
                             rep.violated('R16.1', fn, 're-binding of `%s`' % var,
                                          '`%s` holds the row this pass pulled and is yielded at the end of the pass, but it is '
